@@ -201,7 +201,19 @@ pub fn gen_case(rng: &mut Prng, op: &str) -> OpCase {
                             p[2] = p[1];
                         }
                     }
-                    2 => pts[1] = pts[0].clone(),
+                    2 => {
+                        pts[1] = pts[0].clone();
+                        // merged terms: both scalars at the top of one window-aligned bound, so
+                        // that their sum needs one more bit than either
+                        if parts[2] == "msm_bounded" && rng.chance(1, 2) {
+                            let b = *rng.pick(&[4u64, 8, 64, 128]);
+                            p[1] = b;
+                            p[2] = b;
+                            let top = (BigUint::one() << b) - 1u32;
+                            scs[0] = top.clone();
+                            scs[1] = if rng.chance(1, 2) { top } else { BigUint::one() << (b - 1) };
+                        }
+                    }
                     3 => {
                         scs[0] = BigUint::one();
                     }
